@@ -329,6 +329,14 @@ static void build_catalogue() {
             keep(window::blackmanharris(n)); keep(window::cosine(n)); keep(window::gauss(n, 2.5)); keep(window::gauss(n, 0.5, false));
             keep(window::kaiser(n, 0)); keep(window::kaiser(n, 38)); keep(window::tukey(n, 0)); keep(window::tukey(n, 0.5)); keep(window::tukey(n, 1)));
     }
+    // window shape parameters over their whole range (beta / alpha have no documented upper limit): large, huge, infinite, NaN
+    for (int n : {1, 2, 16, 64})
+        for (double b : {0.0, 1e-300, 8.0, 100.0, 700.0, 761.0, 800.0, 1000.0, 2999.0, 1e6, 1e300, (double)INFINITY, (double)NAN, -1.0})
+            ADD("window(shape)", fmt("n=%d shape=%g", n, b), keep(window::kaiser(n, b)); keep(window::gauss(n, b)); keep(window::gauss(n, b, false)); keep(window::tukey(n, b)));
+    for (double b : {0.0, 38.0, 800.0, 1e6, (double)INFINITY})
+        ADD("resample(x,p,q,n,beta)", fmt("beta=%g", b), keep(resample(R(12), 3, 2, 4, b)); keep(resample(R(12), 1, 2, 4, b)));
+    for (double as : {10.0, 90.0, 300.0, 7000.0, 1e5, 1e9})
+        ADD("design_multirate_fir(astop)", fmt("astop=%g", as), keep(design_multirate_fir(3, 2, 4, as)); keep(design_multirate_fir(1, 4, 12, as)));
     // ======================================================================== multirate
     for (int M : {1, 2, 3, 7})
         for (int nx : lens(M)) {
